@@ -23,7 +23,46 @@ type term struct {
 	pr    pr
 	n     int
 	inner *term
+	rec   bool // json only: the stream carries objects (type rec) instead of integers
 }
+
+// rec is a struct-typed stream element with optional parts. A value is identified with the integer
+// a + 10*b + 100*m["x"] + 1000*m["y"] (each digit 0..9, 0 = the part is absent from the JSON text),
+// so the same Coq term (Json [...]) describes the stream and every element must be decoded on its own.
+type rec struct {
+	A int            `json:"a,omitempty"`
+	B *int           `json:"b,omitempty"`
+	M map[string]int `json:"m,omitempty"`
+}
+
+func recText(v int) string {
+	var parts []string
+	if d := v % 10; d != 0 {
+		parts = append(parts, fmt.Sprintf(`"a":%d`, d))
+	}
+	if d := v / 10 % 10; d != 0 {
+		parts = append(parts, fmt.Sprintf(`"b":%d`, d))
+	}
+	var m []string
+	if d := v / 100 % 10; d != 0 {
+		m = append(m, fmt.Sprintf(`"x":%d`, d))
+	}
+	if d := v / 1000 % 10; d != 0 {
+		m = append(m, fmt.Sprintf(`"y":%d`, d))
+	}
+	if len(m) > 0 {
+		parts = append(parts, `"m":{`+strings.Join(m, ",")+`}`)
+	}
+	return "{" + strings.Join(parts, ",") + "}"
+}
+func recInt(r rec) int {
+	v := r.A
+	if r.B != nil {
+		v += 10 * *r.B
+	}
+	return v + 100*r.M["x"] + 1000*r.M["y"]
+}
+
 type jres struct {
 	ok bool
 	v  int
@@ -130,11 +169,13 @@ type view struct {
 	ctrs  []*counter // outermost first
 }
 
-func jsonText(rs []jres) string {
+func jsonText(rs []jres, asRec bool) string {
 	var b strings.Builder
 	seps := []string{" ", "\n", "\t", "\n\n", " \n"}
 	for i, r := range rs {
-		if r.ok {
+		if r.ok && asRec {
+			b.WriteString(recText(r.v))
+		} else if r.ok {
 			fmt.Fprintf(&b, "%d", r.v)
 		} else {
 			b.WriteString("}") // a syntax error for the decoder
@@ -155,54 +196,66 @@ func build(t *term) view {
 		return t.kind == "json"
 	}
 	if isJSON(t) {
-		var ctrs []*counter
-		var rec func(t *term) iter.Iter[iter.Result[int]]
-		rec = func(t *term) iter.Iter[iter.Result[int]] {
-			switch t.kind {
-			case "json":
-				return iter.FromReaderJSON[int](strings.NewReader(jsonText(t.rs)))
-			case "limit":
-				return iter.Limit(rec(t.inner), t.n)
-			case "cnt":
-				c := &counter{}
-				ctrs = append(ctrs, c)
-				return &cnt[iter.Result[int]]{inner: rec(t.inner), c: c}
-			}
-			panic("json chain: " + t.kind)
+		b := t
+		for b.inner != nil {
+			b = b.inner
 		}
-		it := rec(t)
-		return view{next: it.Next, val: func() (int, bool) {
-			r := it.Val()
-			if r.Err != nil {
-				return 0, true
-			}
-			return r.Val, false
-		}, close: func() { it.Close() }, ctrs: ctrs}
+		if b.rec {
+			return buildJSON(t, recInt)
+		}
+		return buildJSON(t, func(x int) int { return x })
 	}
 	var ctrs []*counter
-	var rec func(t *term) iter.Iter[int]
-	rec = func(t *term) iter.Iter[int] {
+	var rec_ func(t *term) iter.Iter[int]
+	rec_ = func(t *term) iter.Iter[int] {
 		switch t.kind {
 		case "src":
 			return iter.FromSlice(t.xs)
 		case "map":
 			f := t.fn
-			return iter.Map(rec(t.inner), f.apply)
+			return iter.Map(rec_(t.inner), f.apply)
 		case "filter":
 			p := t.pr
-			return iter.Filter(rec(t.inner), p.apply)
+			return iter.Filter(rec_(t.inner), p.apply)
 		case "limit":
-			return iter.Limit(rec(t.inner), t.n)
+			return iter.Limit(rec_(t.inner), t.n)
 		case "cnt":
 			c := &counter{}
 			ctrs = append(ctrs, c)
-			return &cnt[int]{inner: rec(t.inner), c: c}
+			return &cnt[int]{inner: rec_(t.inner), c: c}
 		}
 		panic("int chain: " + t.kind)
 	}
-	it := rec(t)
+	it := rec_(t)
 	return view{next: it.Next, val: func() (int, bool) { return it.Val(), false },
 		close: func() { it.Close() }, ctrs: ctrs}
+}
+
+// buildJSON composes Limit and counting wrappers over the real JSON iterator with element type T.
+func buildJSON[T any](t *term, toInt func(T) int) view {
+	var ctrs []*counter
+	var chain func(t *term) iter.Iter[iter.Result[T]]
+	chain = func(t *term) iter.Iter[iter.Result[T]] {
+		switch t.kind {
+		case "json":
+			return iter.FromReaderJSON[T](strings.NewReader(jsonText(t.rs, t.rec)))
+		case "limit":
+			return iter.Limit(chain(t.inner), t.n)
+		case "cnt":
+			c := &counter{}
+			ctrs = append(ctrs, c)
+			return &cnt[iter.Result[T]]{inner: chain(t.inner), c: c}
+		}
+		panic("json chain: " + t.kind)
+	}
+	it := chain(t)
+	return view{next: it.Next, val: func() (int, bool) {
+		r := it.Val()
+		if r.Err != nil {
+			return 0, true
+		}
+		return toInt(r.Val), false
+	}, close: func() { it.Close() }, ctrs: ctrs}
 }
 
 func ctrsCoq(cs []*counter) string {
@@ -219,10 +272,21 @@ func genTerm(e *vh.Env, maxDepth int) *term {
 	if jsonBase {
 		n := r.Intn(12)
 		rs := make([]jres, n)
+		asRec := r.Intn(2) == 0
 		for i := range rs {
 			rs[i] = jres{ok: r.Intn(9) != 0, v: r.Intn(81) - 20}
+			if asRec {
+				// sparse objects: each optional part present with probability 1/2
+				v := 0
+				for _, w := range []int{1, 10, 100, 1000} {
+					if r.Intn(2) == 0 {
+						v += w * (1 + r.Intn(9))
+					}
+				}
+				rs[i].v = v
+			}
 		}
-		base = &term{kind: "json", rs: rs}
+		base = &term{kind: "json", rs: rs, rec: asRec}
 	} else {
 		n := r.Intn(51)
 		if r.Intn(8) == 0 {
@@ -269,6 +333,16 @@ func genTerm(e *vh.Env, maxDepth int) *term {
 	return t
 }
 
+func jsonTextOf(t *term) string {
+	for t.inner != nil {
+		t = t.inner
+	}
+	if t.kind != "json" {
+		return ""
+	}
+	return jsonText(t.rs, t.rec)
+}
+
 func depthOf(t *term) int {
 	d := 0
 	for t.inner != nil {
@@ -306,6 +380,9 @@ func TestC43(t *testing.T) {
 		{kind: "limit", n: 1, inner: &term{kind: "cnt", inner: &term{kind: "filter", pr: pr{kind: "even"}, inner: &term{kind: "cnt", inner: &term{kind: "src", xs: []int{1, 3, 4, 5, 6}}}}}},
 		{kind: "limit", n: 2, inner: &term{kind: "cnt", inner: &term{kind: "json", rs: []jres{{true, 1}, {false, 0}, {true, 2}}}}},
 		{kind: "cnt", inner: &term{kind: "json", rs: []jres{}}},
+		// struct-typed elements: a later value omits parts an earlier one set; map keys differ
+		{kind: "cnt", inner: &term{kind: "json", rec: true, rs: []jres{{true, 4321}, {true, 1}, {true, 0}, {true, 1020}, {true, 200}}}},
+		{kind: "limit", n: 3, inner: &term{kind: "json", rec: true, rs: []jres{{true, 90}, {true, 7}, {false, 0}, {true, 5}}}},
 		{kind: "filter", pr: pr{kind: "const", b: false}, inner: &term{kind: "cnt", inner: &term{kind: "src", xs: []int{1, 2, 3, 4}}}},
 	}
 	for i := 0; i < n; i++ {
@@ -332,7 +409,7 @@ func TestC43(t *testing.T) {
 			}
 			v.close()
 			term := vh.App("CRead", tm.coq(), pairsCoq(ys), ctrsCoq(v.ctrs))
-			rp := map[string]any{"kind": "read", "term": tm.coq(), "yielded": ys}
+			rp := map[string]any{"kind": "read", "term": tm.coq(), "yielded": ys, "json_text": jsonTextOf(tm)}
 			cs.Add(term, rp)
 			st.Case("R|"+tm.coq(), nontrivial)
 			st.Count("read")
@@ -359,7 +436,7 @@ func TestC43(t *testing.T) {
 				}
 			}
 			term := vh.App("COps", tm.coq(), vh.List(ops), vh.List(obs), ctrsCoq(v.ctrs))
-			rp := map[string]any{"kind": "ops", "term": tm.coq(), "ops": strings.Join(opn, "")}
+			rp := map[string]any{"kind": "ops", "term": tm.coq(), "ops": strings.Join(opn, ""), "json_text": jsonTextOf(tm)}
 			cs.Add(term, rp)
 			st.Case("O|"+tm.coq()+"|"+strings.Join(opn, ""), nontrivial && nops >= 3)
 			st.Count("ops")
